@@ -18,6 +18,7 @@ NWORK = int(os.environ.get("VERIF_WORKERS", "16"))
 # property -> world and budgets (seconds of simulation wall time, after the build)
 PROPS = {
     "C09": dict(world="ogm", quick=40, thorough=420, chunk=4000),
+    "C04": dict(world="seat", quick=40, thorough=420, chunk=8000),
 }
 
 WORKER_ENV = dict(GODEBUG="randseednop=0", GOMAXPROCS="2")
@@ -295,7 +296,7 @@ def run_many(b, rfs):
     return outs
 
 
-def minimise(b, prop, r, v, budget_s=75, max_exec=400):
+def minimise(b, prop, r, v, budget_s=40, max_exec=220):
     cls = vclass(v)
     t_end = time.time() + budget_s
     execs = 0
@@ -574,6 +575,27 @@ def cmd_probe(a):
         b.cleanup()
 
 
+def cmd_survey(a):
+    """run a batch with no focus property and list every violation class seen"""
+    b = Build()
+    try:
+        agg = explore(b, a.property or "", a.world, "survey", a.seed, a.budget, 4000)
+        classes = {}
+        for (r, v) in agg.violations:
+            key = v["property"] + " " + vclass(v)
+            classes.setdefault(key, []).append((r, v))
+        for key in sorted(classes):
+            r, v = classes[key][0]
+            log("%6d  %s\n        e.g. run %d: %s" % (len(classes[key]), key, r["run"], v["message"][:700]))
+        log("runs=%d judged=%s" % (agg.runs, json.dumps(agg.judged, sort_keys=True)))
+        log("probes=%s" % json.dumps(agg.probes, sort_keys=True))
+        log("faults=%s inconclusive=%s panics=%s" % (json.dumps(agg.faults, sort_keys=True), json.dumps(agg.inconc), json.dumps(agg.panics)))
+        if agg.infra:
+            log("INFRA: %s" % agg.infra[:5])
+    finally:
+        b.cleanup()
+
+
 def cmd_selftest(a):
     """determinism: same seeds, several processes, different GOMAXPROCS -> identical digests"""
     b = Build()
@@ -615,8 +637,9 @@ def main():
     p.add_argument("-r", "--run", type=int, default=0); p.add_argument("-n", "--count", type=int, default=1); p.add_argument("--dump", action="store_true")
     p.add_argument("-o", "--override", action="append"); p.add_argument("-p", "--property")
     s = sub.add_parser("selftest"); s.add_argument("-w", "--world"); s.add_argument("-n", type=int, default=40); s.add_argument("--procs", type=int, default=15); s.add_argument("-s", "--seed", type=int, default=7)
+    v = sub.add_parser("survey"); v.add_argument("-w", "--world", required=True); v.add_argument("-s", "--seed", type=int, default=1); v.add_argument("-b", "--budget", type=float, default=15); v.add_argument("-p", "--property")
     a = ap.parse_args()
-    dict(check=cmd_check, replay=cmd_replay, probe=cmd_probe, selftest=cmd_selftest)[a.cmd](a)
+    dict(survey=cmd_survey, check=cmd_check, replay=cmd_replay, probe=cmd_probe, selftest=cmd_selftest)[a.cmd](a)
 
 
 if __name__ == "__main__":
